@@ -8,16 +8,24 @@ package main
 //        steps  = s:<k> | s:x   one Shipper.Sync by a NEW Shipper on the same directory (restart); k = crash budget
 //                                (after k mutating bucket calls every bucket call fails), x = no crash
 //                 t:<j>         one Sync in which exactly the j-th bucket call (reads and writes, from 0) fails
+//                 s:…@<n>:<v>, t:…@<n>:<v>   … and after n mutating bucket calls of that Sync the DYNAMIC labels callback
+//                               (what the sidecar passes: refreshed from Prometheus) starts returning label version v
+//                 L:<v>         the dynamic callback returns label version v from now on (external labels {ext="l<v>"})
+//                 SL:<v>        Shipper.SetLabels on the running instance (replaces the callback by a constant)
+//                 N             the process restarts: a NEW Shipper instance (dynamic callback again); without N the
+//                               same instance runs all Syncs of the line
 //                 rm            thanos.shipper.json is lost
 //      o.ship.run …             same, with WithUploadConcurrency(4) (order of chunk uploads not deterministic): oracle only
 //
-// answer: <status>[<mutating calls that reached the bucket>]file=<uploaded ids | none> … => b<id>{<objects>} …
+// answer: <status>[<mutating calls that reached the bucket>]file=<uploaded ids | none> … => b<id>@<label version in the bucket meta.json | ->{<objects>} …
 //
 // oracle:
 //   visible-incomplete             (after every mutating call) a block with meta.json lacks a listed / local file
 //   recorded-not-complete          after a Sync, a block listed in thanos.shipper.json is not complete in the bucket
 //   eligible-missing-after-ok-sync Sync returned nil but an eligible local block is not complete in the bucket / not recorded
-//   labels-mismatch                an uploaded meta.json does not carry the shipper's external labels / source
+//   labels-mismatch                an uploaded meta.json does not carry exactly one well-formed external label / the source
+//   stale-labels                   the meta.json just uploaded for a block does not carry the external labels the shipper's
+//                                  callback returned when that block's upload began (its Exists check)
 //   final-sync-failed              a crash-free Sync over pairwise non-overlapping blocks returned an error
 //   sync-wedged-by-partial-dir     … namely because lazyOverlapChecker.sync could not download the meta.json of a block
 //                                  directory that has none (left by a crashed upload)
@@ -31,6 +39,7 @@ import (
 	"path/filepath"
 	"strconv"
 	"strings"
+	"sync"
 
 	"github.com/prometheus/prometheus/model/labels"
 	"github.com/thanos-io/objstore"
@@ -118,36 +127,61 @@ func execC35(c *hlib.Ctx, tok []string) string {
 		return "bad-op"
 	}
 	type sstep struct {
-		rm    bool
+		kind  string // sync rm L SL N
 		k     int
 		trans int // >= 0: transient failure of that call
+		swN   int // >= 0: label switch after swN mutating calls of this Sync
+		v     int
 	}
 	var steps []sstep
 	for _, t := range hlib.Split(tok[3], ";") {
-		if t == "rm" {
-			steps = append(steps, sstep{rm: true, trans: -1})
+		if t == "rm" || t == "N" {
+			steps = append(steps, sstep{kind: t, trans: -1, swN: -1})
 			continue
 		}
-		if strings.HasPrefix(t, "t:") {
-			v, err := strconv.Atoi(t[2:])
+		if strings.HasPrefix(t, "L:") || strings.HasPrefix(t, "SL:") {
+			p := strings.SplitN(t, ":", 2)
+			v, err := strconv.Atoi(p[1])
 			if err != nil || v < 0 {
 				return "bad-op"
 			}
-			steps = append(steps, sstep{k: -1, trans: v})
+			steps = append(steps, sstep{kind: p[0], v: v, trans: -1, swN: -1})
 			continue
 		}
-		if !strings.HasPrefix(t, "s:") {
+		st := sstep{kind: "sync", k: -1, trans: -1, swN: -1}
+		core := t
+		if i := strings.Index(t, "@"); i >= 0 {
+			core = t[:i]
+			p := strings.Split(t[i+1:], ":")
+			if len(p) != 2 {
+				return "bad-op"
+			}
+			n, e1 := strconv.Atoi(p[0])
+			v, e2 := strconv.Atoi(p[1])
+			if e1 != nil || e2 != nil || n < 0 || v < 0 {
+				return "bad-op"
+			}
+			st.swN, st.v = n, v
+		}
+		switch {
+		case strings.HasPrefix(core, "t:"):
+			v, err := strconv.Atoi(core[2:])
+			if err != nil || v < 0 {
+				return "bad-op"
+			}
+			st.trans = v
+		case strings.HasPrefix(core, "s:"):
+			if core[2:] != "x" {
+				v, err := strconv.Atoi(core[2:])
+				if err != nil || v < 0 {
+					return "bad-op"
+				}
+				st.k = v
+			}
+		default:
 			return "bad-op"
 		}
-		k := -1
-		if t[2:] != "x" {
-			v, err := strconv.Atoi(t[2:])
-			if err != nil || v < 0 {
-				return "bad-op"
-			}
-			k = v
-		}
-		steps = append(steps, sstep{k: k, trans: -1})
+		steps = append(steps, st)
 	}
 	if len(steps) == 0 {
 		return "bad-op"
@@ -166,6 +200,44 @@ func execC35(c *hlib.Ctx, tok []string) string {
 	ctx := context.Background()
 	inner := objstore.NewInMemBucket()
 	fb := newFaultBucket(inner)
+	// ---- external labels: a dynamic callback (as the sidecar passes) and SetLabels
+	var lmu sync.Mutex
+	dyn, pinned := 1, -1 // label version of the dynamic callback; version installed by SetLabels on the instance (-1: none)
+	effective := func() int {
+		lmu.Lock()
+		defer lmu.Unlock()
+		if pinned >= 0 {
+			return pinned
+		}
+		return dyn
+	}
+	lblOf := func(v int) labels.Labels { return labels.FromStrings("ext", fmt.Sprintf("l%d", v)) }
+	expect := map[string]int{} // block dir -> label version when its upload began (its Exists check)
+	swN, swV, mutsThisSync := -1, 0, 0
+	fb.intercept = func(kind, name string) string {
+		if kind == "exists" && strings.HasSuffix(name, "/"+block.MetaFilename) {
+			lmu.Lock()
+			d := strings.TrimSuffix(name, "/"+block.MetaFilename)
+			lmu.Unlock()
+			v := effective()
+			lmu.Lock()
+			expect[d] = v
+			lmu.Unlock()
+		}
+		return ""
+	}
+	metaLabel := func(b []byte) (int, string) {
+		var m metadata.Meta
+		if err := json.Unmarshal(b, &m); err != nil {
+			return -1, "does not parse"
+		}
+		e := m.Thanos.Labels["ext"]
+		v, err := strconv.Atoi(strings.TrimPrefix(e, "l"))
+		if len(m.Thanos.Labels) != 1 || !strings.HasPrefix(e, "l") || err != nil || m.Thanos.Source != metadata.SidecarSource {
+			return -1, fmt.Sprintf("labels %v source %q", m.Thanos.Labels, m.Thanos.Source)
+		}
+		return v, ""
+	}
 	fb.afterMut = func(rec callRec) {
 		objs := inner.Objects()
 		for i := range blocks {
@@ -173,6 +245,22 @@ func execC35(c *hlib.Ctx, tok []string) string {
 				c.Violation("visible-incomplete", fmt.Sprintf("after %s: block %d: %s", showMutB(rec), ulidNum(blocks[i].id), msg))
 			}
 		}
+		if rec.Kind == "upload" && strings.HasSuffix(rec.Name, "/"+block.MetaFilename) {
+			d := strings.TrimSuffix(rec.Name, "/"+block.MetaFilename)
+			got, bad := metaLabel(objs[rec.Name])
+			lmu.Lock()
+			want, ok := expect[d]
+			lmu.Unlock()
+			if bad == "" && ok && got != want {
+				c.Violation("stale-labels", fmt.Sprintf("%s uploaded with external labels version %d; the shipper's labels callback returned version %d when this block's upload began", showMutB(rec), got, want))
+			}
+		}
+		lmu.Lock()
+		mutsThisSync++
+		if swN >= 0 && mutsThisSync == swN {
+			dyn = swV
+		}
+		lmu.Unlock()
 	}
 	nonOverlapping := true
 	for i := range blocks {
@@ -182,32 +270,81 @@ func execC35(c *hlib.Ctx, tok []string) string {
 			}
 		}
 	}
-	extLabels := labels.FromStrings("ext", "a")
 	metaFile := filepath.Join(dbdir, shipper.DefaultMetaFilename)
 	var parts []string
+	var sh *shipper.Shipper
+	closeSh := func() {
+		if sh != nil {
+			_ = sh.Close()
+			sh = nil
+		}
+	}
+	defer closeSh()
 	for _, st := range steps {
-		if st.rm {
+		switch st.kind {
+		case "rm":
 			_ = os.Remove(metaFile)
 			parts = append(parts, "rm")
 			c.Count("step:rm")
+			continue
+		case "N":
+			closeSh()
+			lmu.Lock()
+			pinned = -1
+			lmu.Unlock()
+			c.Count("step:restart")
+			continue
+		case "L":
+			lmu.Lock()
+			dyn = st.v
+			lmu.Unlock()
+			c.Count("step:labels-change")
+			continue
+		case "SL":
+			c.Count("step:SetLabels")
+			lmu.Lock()
+			pinned = st.v
+			lmu.Unlock()
+			if sh != nil {
+				sh.SetLabels(lblOf(st.v))
+			}
 			continue
 		}
 		c.Count("step:sync")
 		if st.k >= 0 {
 			c.Count("step:sync-crash")
 		}
-		root, rerr := os.OpenRoot(dbdir)
-		if rerr != nil {
-			panic(rerr)
+		lmu.Lock()
+		swN, swV, mutsThisSync = st.swN, st.v, 0
+		if swN == 0 {
+			dyn = swV
 		}
-		opts := []shipper.Option{shipper.WithSource(metadata.SidecarSource),
-			shipper.WithLabels(func() labels.Labels { return extLabels }),
-			shipper.WithHashFunc(metadata.NoneFunc),
-			shipper.WithUploadCompacted(uploadCompacted), shipper.WithAllowOutOfOrderUploads(allowOOO)}
-		if tok[0] == "o.ship.run" {
-			opts = append(opts, shipper.WithUploadConcurrency(4))
+		if swN >= 0 {
+			c.Count("step:labels-change-mid-sync")
 		}
-		sh := shipper.New(fb, root, opts...)
+		lmu.Unlock()
+		if sh == nil {
+			root, rerr := os.OpenRoot(dbdir)
+			if rerr != nil {
+				panic(rerr)
+			}
+			opts := []shipper.Option{shipper.WithSource(metadata.SidecarSource),
+				shipper.WithLabels(func() labels.Labels {
+					lmu.Lock()
+					v := dyn
+					lmu.Unlock()
+					return lblOf(v)
+				}),
+				shipper.WithHashFunc(metadata.NoneFunc),
+				shipper.WithUploadCompacted(uploadCompacted), shipper.WithAllowOutOfOrderUploads(allowOOO)}
+			if tok[0] == "o.ship.run" {
+				opts = append(opts, shipper.WithUploadConcurrency(4))
+			}
+			sh = shipper.New(fb, root, opts...)
+			if pv := func() int { lmu.Lock(); defer lmu.Unlock(); return pinned }(); pv >= 0 {
+				sh.SetLabels(lblOf(pv)) // SetLabels given before the first Sync of the instance
+			}
+		}
 		if st.trans >= 0 {
 			fb.armTransient(st.trans)
 			c.Count("step:sync-transient")
@@ -215,7 +352,9 @@ func execC35(c *hlib.Ctx, tok []string) string {
 			fb.arm(st.k)
 		}
 		_, serr := sh.Sync(ctx)
-		_ = sh.Close()
+		lmu.Lock()
+		swN = -1
+		lmu.Unlock()
 		var muts []string
 		for _, r := range fb.log() {
 			if r.Mut && !r.Failed {
@@ -256,9 +395,8 @@ func execC35(c *hlib.Ctx, tok []string) string {
 				}
 			}
 			if mb, ok := objs[path.Join(b.id.String(), block.MetaFilename)]; ok {
-				var m metadata.Meta
-				if err := json.Unmarshal(mb, &m); err != nil || m.Thanos.Labels["ext"] != "a" || len(m.Thanos.Labels) != 1 || m.Thanos.Source != metadata.SidecarSource {
-					c.Violation("labels-mismatch", fmt.Sprintf("block %d uploaded with labels %v source %q", n, m.Thanos.Labels, m.Thanos.Source))
+				if _, bad := metaLabel(mb); bad != "" {
+					c.Violation("labels-mismatch", fmt.Sprintf("block %d uploaded with %s", n, bad))
 				}
 			}
 			eligible := b.numSamples > 0 && (b.level <= 1 || uploadCompacted)
@@ -282,7 +420,14 @@ func execC35(c *hlib.Ctx, tok []string) string {
 	var listing []string
 	objs := inner.Objects()
 	for _, b := range blocks {
-		listing = append(listing, fmt.Sprintf("b%d{%s}", ulidNum(b.id), showListing(b.id, objs)))
+		lv := "-"
+		if mb, ok := objs[path.Join(b.id.String(), block.MetaFilename)]; ok {
+			lv = "?"
+			if v, bad := metaLabel(mb); bad == "" {
+				lv = strconv.Itoa(v)
+			}
+		}
+		listing = append(listing, fmt.Sprintf("b%d@%s{%s}", ulidNum(b.id), lv, showListing(b.id, objs)))
 	}
 	return strings.Join(parts, " ") + " => " + strings.Join(listing, " ")
 }
@@ -346,6 +491,19 @@ func genC35(c *hlib.Ctx) {
 			}
 		}
 		c.Do(fmt.Sprintf("ship.run %s %s s:x;s:x", cfg, blocks), true)
+		// external labels change: between Syncs of one instance (after an interrupted Sync), in the middle of a Sync,
+		// through SetLabels, and across a restart
+		for rep := 0; rep < c.N(3, 6); rep++ {
+			k := r.Intn(total + 1)
+			n := r.Intn(total + 1)
+			c.Count("labels-lines")
+			c.Do(fmt.Sprintf("ship.run %s %s s:%d;L:2;s:x", cfg, blocks, k), true)
+			c.Do(fmt.Sprintf("ship.run %s %s s:x@%d:2;s:x", cfg, blocks, n), true)
+			c.Do(fmt.Sprintf("ship.run %s %s s:%d@%d:2;L:3;s:%d;s:x", cfg, blocks, k, n, r.Intn(total+1)), true)
+			c.Do(fmt.Sprintf("ship.run %s %s s:%d;SL:4;L:2;s:x", cfg, blocks, k), true)
+			c.Do(fmt.Sprintf("ship.run %s %s SL:4;s:%d;L:2;N;s:x", cfg, blocks, k), true)
+			c.Do(fmt.Sprintf("ship.run %s %s t:%d@%d:2;rm;s:x@%d:5", cfg, blocks, r.Intn(total+n+2), n, r.Intn(total+1)), true)
+		}
 		// every bucket call of the first Sync fails once (transient), then a clean Sync
 		for j := 0; j <= total+n+2; j++ {
 			if c.Tier == "quick" && j > 3 && !r.Chance(1, 3) {
@@ -372,6 +530,9 @@ func genC35(c *hlib.Ctx) {
 				st = append(st, "s:x")
 			case 2:
 				st = append(st, fmt.Sprintf("t:%d", r.Intn(total+n+2)))
+				if r.Chance(1, 2) {
+					st = append(st, []string{fmt.Sprintf("L:%d", r.Range(1, 4)), fmt.Sprintf("SL:%d", r.Range(1, 4)), "N"}[r.Intn(3)])
+				}
 			default:
 				st = append(st, fmt.Sprintf("s:%d", r.Intn(total+2)))
 			}
